@@ -568,6 +568,33 @@ pub fn rec_wire_limit(args: &Args) {
         ev_to_bytes(&mut out, &p, Some(None));
         ev_to_bytes(&mut out, &p, None);
     }
+    // header replaced after set_token (the header is a public field): its token-length nibble then
+    // disagrees with the stored token; the limit still applies to the bytes actually sent
+    for tl in [0usize, 1, 4, 8] {
+        for htkl in [0u8, 2, 8, 15] {
+            let mut p = Packet::new();
+            p.set_token(r.bytes(tl));
+            p.header = coap_lite::Header::new();
+            p.header.set_token_length(htkl);
+            p.header.code = 0x02.into();
+            p.add_option(CoapOption::UriPath, b"abc".to_vec());
+            p.payload = r.bytes(20);
+            let wl = 4 + tl + 4 + 1 + 20;
+            for l in [wl - 9, wl - 8, wl - 1, wl, wl + 1, wl + 7, wl + 8, wl + 15] {
+                ev_to_bytes(&mut out, &p, Some(Some(l)));
+            }
+            ev_to_bytes(&mut out, &p, Some(None));
+            // the same at the default limit
+            let mut q = p.clone();
+            for total in [Packet::MAX_SIZE - 1, Packet::MAX_SIZE, Packet::MAX_SIZE + 1, Packet::MAX_SIZE + 8] {
+                if total > 100_000 {
+                    continue;
+                }
+                q.payload = r.bytes(total - (4 + tl + 4 + 1));
+                ev_to_bytes(&mut out, &q, None);
+            }
+        }
+    }
     // 0.00 message with a long stored payload: the payload is not sent, so it must not count
     for pl in [1usize, 1276, 1277, 1300, 5000] {
         let mut p = Packet::new();
